@@ -27,6 +27,14 @@ pub struct ChanInline;
 type Item = u32;
 type Chan = Vec<Item>;
 
+thread_local! {
+    // the critical section the calling thread is about to execute (set by the actor, read by the model at the lock hook)
+    static CS_ITEM: std::cell::Cell<Option<Item>> = const { std::cell::Cell::new(None) };
+    static CS_WATCH: std::cell::Cell<Option<u32>> = const { std::cell::Cell::new(None) };
+    static CS_RESULT: std::cell::Cell<Option<bool>> = const { std::cell::Cell::new(None) };
+    static IN_SENDER_OP: std::cell::Cell<u32> = const { std::cell::Cell::new(0) };
+}
+
 struct NoopWake;
 impl Wake for NoopWake {
     fn wake(self: Arc<Self>) {}
@@ -112,12 +120,7 @@ struct World {
     rx_done: bool,
     rx_sleep_until: Option<Duration>,
     fault_budget: u32,
-    in_sender_op: u32,
     rx_on_stack: bool,
-    // the critical section the running actor is about to execute
-    cs_item: Option<Item>,
-    cs_watch: Option<u32>,
-    cs_result: Option<bool>,
     aborted: bool,
     focus: u8,
     retry_storm: bool,
@@ -156,6 +159,10 @@ impl World {
 struct Sh {
     world: Mutex<World>,
     choices: Mutex<Choices>,
+    /// thread mode: the scheduler owns the choice stream
+    ext_choose: Option<Arc<dyn Fn(u32) -> u32 + Send + Sync>>,
+    inline: bool,
+    yielder: Option<Arc<dyn Fn(&'static str) + Send + Sync>>,
     sender: Mutex<Option<Arc<Sender<Chan>>>>,
     actors: Mutex<Vec<Actor>>,
 }
@@ -167,10 +174,24 @@ fn w<R>(sh: &Sh, f: impl FnOnce(&mut World) -> R) -> R {
     f(&mut g)
 }
 fn choose(sh: &Sh, n: u32) -> u32 {
-    sh.choices.lock().unwrap_or_else(|e| e.into_inner()).choose(n)
+    match &sh.ext_choose {
+        Some(f) => f(n.max(1)),
+        None => sh.choices.lock().unwrap_or_else(|e| e.into_inner()).choose(n),
+    }
 }
 fn chance(sh: &Sh, num: u32, den: u32) -> bool {
-    sh.choices.lock().unwrap_or_else(|e| e.into_inner()).chance(num, den)
+    choose(sh, den) >= den - num
+}
+fn weighted(sh: &Sh, weights: &[u32]) -> usize {
+    let total: u32 = weights.iter().sum();
+    let mut v = choose(sh, total.max(1));
+    for (i, w) in weights.iter().enumerate() {
+        if v < *w {
+            return i;
+        }
+        v -= *w;
+    }
+    0
 }
 
 // ---------------------------------------------------------------------------------------------
@@ -237,7 +258,7 @@ impl verif::Hooks for InlineHooks {
 
 fn model_send(sh: &Sh) {
     w(sh, |w| {
-        let Some(item) = w.cs_item else { return };
+        let Some(item) = CS_ITEM.with(|c| c.get()) else { return };
         if w.torn_down {
             return;
         }
@@ -260,9 +281,9 @@ fn model_send(sh: &Sh) {
         }
         if w.open {
             w.pending.push(item);
-            w.cs_result = Some(true);
+            CS_RESULT.with(|c| c.set(Some(true)));
         } else {
-            w.cs_result = Some(false);
+            CS_RESULT.with(|c| c.set(Some(false)));
         }
         if w.in_batch {
             w.ops_during_batch += 1;
@@ -272,15 +293,15 @@ fn model_send(sh: &Sh) {
 
 fn model_try_send(sh: &Sh) {
     w(sh, |w| {
-        let Some(item) = w.cs_item else { return };
+        let Some(item) = CS_ITEM.with(|c| c.get()) else { return };
         if w.torn_down {
             return;
         }
         if w.open && w.pending.len() < w.cap {
             w.pending.push(item);
-            w.cs_result = Some(true);
+            CS_RESULT.with(|c| c.set(Some(true)));
         } else {
-            w.cs_result = Some(false);
+            CS_RESULT.with(|c| c.set(Some(false)));
             if w.open {
                 w.out.probe("try_send_full");
             }
@@ -293,7 +314,7 @@ fn model_try_send(sh: &Sh) {
 
 fn model_when_empty(sh: &Sh) {
     w(sh, |w| {
-        let Some(id) = w.cs_watch else { return };
+        let Some(id) = CS_WATCH.with(|c| c.get()) else { return };
         if w.torn_down {
             return;
         }
@@ -305,7 +326,7 @@ fn model_when_empty(sh: &Sh) {
 
 fn model_when_flushed(sh: &Sh) {
     w(sh, |w| {
-        let Some(id) = w.cs_watch else { return };
+        let Some(id) = CS_WATCH.with(|c| c.get()) else { return };
         if w.torn_down {
             return;
         }
@@ -453,7 +474,7 @@ fn make_cb(sh: &ShRef, id: u32, panics: bool) -> impl FnOnce() + Send + 'static 
                 w.events.push(Ev::FlushDone { seq, id });
             }
             w.log(format!("callback {kind}#{id} fired"));
-            w.in_sender_op == 0
+            IN_SENDER_OP.with(|c| c.get()) == 0
         });
         if from_rx {
             interleave(&sh, "in_watcher");
@@ -513,15 +534,15 @@ fn actor_step(sh: &ShRef, a: usize) {
         actors[a].on_stack = true;
         actors[a].cur.take()
     };
-    w(sh, |w| w.in_sender_op += 1);
+    w(sh, |w| IN_SENDER_OP.with(|c| c.set(c.get() + 1)));
     let next = match cur {
         Some(op) => poll_async(sh, a, op),
         None => start_op(sh, a, &sender),
     };
     w(sh, |w| {
-        w.in_sender_op -= 1;
-        w.cs_item = None;
-        w.cs_watch = None;
+        IN_SENDER_OP.with(|c| c.set(c.get() - 1));
+        CS_ITEM.with(|c| c.set(None));
+        CS_WATCH.with(|c| c.set(None));
         w.abstract_state();
     });
     let mut actors = sh.actors.lock().unwrap();
@@ -539,10 +560,10 @@ fn poll_async(sh: &ShRef, a: usize, op: AsyncOp) -> Option<AsyncOp> {
             mut fut,
         } => {
             w(sh, |w| {
-                w.cs_item = Some(item);
-                w.cs_result = None;
+                CS_ITEM.with(|c| c.set(Some(item)));
+                CS_RESULT.with(|c| c.set(None));
                 w.next_cb += 1;
-                w.cs_watch = Some(w.next_cb);
+                CS_WATCH.with(|c| c.set(Some(w.next_cb)));
             });
             let r = panic::catch_unwind(AssertUnwindSafe(|| verif::poll_once(fut.as_mut(), &waker)));
             match r {
@@ -567,7 +588,7 @@ fn poll_async(sh: &ShRef, a: usize, op: AsyncOp) -> Option<AsyncOp> {
         }
         AsyncOp::Flush { id, mut fut } => {
             w(sh, |w| {
-                w.cs_watch = Some(id);
+                CS_WATCH.with(|c| c.set(Some(id)));
             });
             let r = panic::catch_unwind(AssertUnwindSafe(|| verif::poll_once(fut.as_mut(), &waker)));
             match r {
@@ -602,7 +623,7 @@ fn op_panicked(sh: &Sh, what: &str) {
 }
 
 fn finish_async_send(sh: &Sh, a: usize, item: Item, started: Duration, timeout: Duration, res: Result<(), BatchError<Item>>) {
-    let predicted = w(sh, |w| w.cs_result);
+    let predicted = w(sh, |w| CS_RESULT.with(|c| c.get()));
     match res {
         Ok(()) => {
             record_send_return(sh, item, true);
@@ -672,13 +693,21 @@ fn start_op(sh: &ShRef, a: usize, sender: &Arc<Sender<Chan>>) -> Option<AsyncOp>
         9 => [7, 4, 5, 1, 1, 2, 3],
         _ => [8, 3, 3, 2, 2, 1, 1],
     };
-    let kind = sh.choices.lock().unwrap().weighted(&weights);
+    let kind = weighted(sh, &weights);
+    start_op_kind(sh, a, sender, kind)
+}
+
+fn start_op_kind(sh: &ShRef, a: usize, sender: &Arc<Sender<Chan>>, kind: usize) -> Option<AsyncOp> {
+    if !sh.inline {
+        let mut actors = sh.actors.lock().unwrap();
+        actors[a].ops_left = actors[a].ops_left.saturating_sub(1);
+    }
     match kind {
         0 => {
             let item = new_item(sh);
             w(sh, |w| {
-                w.cs_item = Some(item);
-                w.cs_result = None;
+                CS_ITEM.with(|c| c.set(Some(item)));
+                CS_RESULT.with(|c| c.set(None));
             });
             let r = panic::catch_unwind(AssertUnwindSafe(|| sender.send(item)));
             if r.is_err() {
@@ -686,7 +715,7 @@ fn start_op(sh: &ShRef, a: usize, sender: &Arc<Sender<Chan>>) -> Option<AsyncOp>
                 return None;
             }
             let accepted = w(sh, |w| {
-                let acc = w.cs_result == Some(true);
+                let acc = CS_RESULT.with(|c| c.get()) == Some(true);
                 w.log(format!("actor{a} send({item}) accepted={acc}"));
                 acc
             });
@@ -697,8 +726,8 @@ fn start_op(sh: &ShRef, a: usize, sender: &Arc<Sender<Chan>>) -> Option<AsyncOp>
         1 => {
             let item = new_item(sh);
             w(sh, |w| {
-                w.cs_item = Some(item);
-                w.cs_result = None;
+                CS_ITEM.with(|c| c.set(Some(item)));
+                CS_RESULT.with(|c| c.set(None));
             });
             let r = panic::catch_unwind(AssertUnwindSafe(|| sender.try_send(item)));
             let Ok(r) = r else {
@@ -713,7 +742,7 @@ fn start_op(sh: &ShRef, a: usize, sender: &Arc<Sender<Chan>>) -> Option<AsyncOp>
                 if w.torn_down {
                     return;
                 }
-                let predicted = w.cs_result == Some(true);
+                let predicted = CS_RESULT.with(|c| c.get()) == Some(true);
                 if ok != predicted {
                     w.out.violate(
                         "C09",
@@ -757,7 +786,7 @@ fn start_op(sh: &ShRef, a: usize, sender: &Arc<Sender<Chan>>) -> Option<AsyncOp>
             let id = new_cb(sh, "flush");
             let panics = chance(sh, 1, 12);
             w(sh, |w| {
-                w.cs_watch = Some(id);
+                CS_WATCH.with(|c| c.set(Some(id)));
                 let seq = w.next_seq();
                 w.events.push(Ev::FlushRequest { seq, id });
                 w.log(format!("actor{a} when_flushed#{id} requested (panics={panics})"));
@@ -772,7 +801,7 @@ fn start_op(sh: &ShRef, a: usize, sender: &Arc<Sender<Chan>>) -> Option<AsyncOp>
             let id = new_cb(sh, "aflush");
             let timeout = timeout_choice(sh);
             w(sh, |w| {
-                w.cs_watch = Some(id);
+                CS_WATCH.with(|c| c.set(Some(id)));
                 let seq = w.next_seq();
                 w.events.push(Ev::FlushRequest { seq, id });
                 w.log(format!("actor{a} async flush#{id} (timeout={timeout:?}) requested"));
@@ -787,7 +816,7 @@ fn start_op(sh: &ShRef, a: usize, sender: &Arc<Sender<Chan>>) -> Option<AsyncOp>
             let id = new_cb(sh, "empty");
             let panics = chance(sh, 1, 12);
             w(sh, |w| {
-                w.cs_watch = Some(id);
+                CS_WATCH.with(|c| c.set(Some(id)));
                 w.log(format!("actor{a} when_empty#{id} requested (panics={panics})"));
             });
             let cb = make_cb(sh, id, panics);
@@ -844,6 +873,13 @@ fn sample_metrics(sh: &Sh, sender: &Sender<Chan>, why: &str) {
 // Control points: run sender-side work in the middle of receiver-side work
 
 fn interleave(sh: &ShRef, point: &'static str) {
+    if !sh.inline {
+        // thread mode: real threads are interleaved by the scheduler at this point instead
+        if let Some(y) = &sh.yielder {
+            y(point);
+        }
+        return;
+    }
     if w(sh, |w| w.aborted || w.sender_dropped) {
         return;
     }
@@ -906,14 +942,7 @@ impl Future for ProcFut {
         }
         let outcome = self.outcome.take().expect("processor future polled after completion");
         let batch_no = self.batch_no;
-        w(&sh, |w| {
-            let seq = w.next_seq();
-            w.events.push(Ev::AttemptEnd { seq, batch_no });
-            w.log(format!("processor: attempt on batch #{batch_no} ends with {outcome:?}"));
-            if let Some(cur) = w.cur.as_mut() {
-                cur.attempt_open = false;
-            }
-        });
+        attempt_end(&sh, batch_no, &outcome);
         match outcome {
             ProcOutcome::Ok => Poll::Ready(Ok(())),
             ProcOutcome::Fail => Poll::Ready(Err(BatchError::no_retry(TestErr))),
@@ -924,8 +953,8 @@ impl Future for ProcFut {
     }
 }
 
-fn on_batch(sh: &ShRef, arg: Chan) -> ProcFut {
-    // the receiver is calling the processor: attempt start
+/// The receiver is calling the processor: record and check the attempt start.
+fn attempt_start(sh: &ShRef, arg: &Chan) -> (u64, u32) {
     let (batch_no, attempt) = w(sh, |w| {
         let seq = w.next_seq();
         let (no, attempt) = match w.cur.as_mut() {
@@ -940,7 +969,7 @@ fn on_batch(sh: &ShRef, arg: Chan) -> ProcFut {
             Some(cur) => {
                 cur.attempts += 1;
                 if cur.attempts == 1 {
-                    if arg != cur.first {
+                    if *arg != cur.first {
                         w.out.violate(
                             "C06",
                             "batch_content",
@@ -948,7 +977,7 @@ fn on_batch(sh: &ShRef, arg: Chan) -> ProcFut {
                         );
                     }
                 } else {
-                    if arg != cur.expected_next {
+                    if *arg != cur.expected_next {
                         w.out.violate(
                             "C06",
                             "retry_content",
@@ -990,8 +1019,11 @@ fn on_batch(sh: &ShRef, arg: Chan) -> ProcFut {
         panic::panic_any(Injected("abort_run"));
     }
     interleave(sh, "in_on_batch");
+    (batch_no, attempt)
+}
 
-    // draw the outcome of this attempt
+/// Draw the outcome of this attempt from the fault script: (outcome, polls it stays pending, latency).
+fn draw_outcome(sh: &ShRef, arg: &Chan) -> (ProcOutcome, u32, Duration) {
     let (budget, focus) = w(sh, |w| (w.fault_budget, w.focus));
     let outcome = if budget == 0 {
         ProcOutcome::Ok
@@ -1003,7 +1035,7 @@ fn on_batch(sh: &ShRef, arg: Chan) -> ProcFut {
             7 => [7, 2, 5, 1, 1],
             _ => [10, 1, 4, 1, 1],
         };
-        let pick = sh.choices.lock().unwrap().weighted(&weights);
+        let pick = weighted(sh, &weights);
         match pick {
             0 => ProcOutcome::Ok,
             1 => ProcOutcome::Fail,
@@ -1048,11 +1080,7 @@ fn on_batch(sh: &ShRef, arg: Chan) -> ProcFut {
     if latency > Duration::ZERO {
         w(sh, |w| w.out.fault("processor_latency"));
     }
-    let deadline = w(sh, |w| {
-        let d = w.now + latency;
-        if latency > Duration::ZERO {
-            w.deadlines.insert(d);
-        }
+    w(sh, |w| {
         if let Some(cur) = w.cur.as_mut() {
             match outcome {
                 ProcOutcome::Retry(ref rem) if !rem.is_empty() => {
@@ -1064,20 +1092,35 @@ fn on_batch(sh: &ShRef, arg: Chan) -> ProcFut {
                 }
             }
         }
+    });
+    (outcome, polls_left, latency)
+}
+
+fn attempt_end(sh: &ShRef, batch_no: u64, outcome: &ProcOutcome) {
+    w(sh, |w| {
+        let seq = w.next_seq();
+        w.events.push(Ev::AttemptEnd { seq, batch_no });
+        w.log(format!("processor: attempt on batch #{batch_no} ends with {outcome:?}"));
+        if let Some(cur) = w.cur.as_mut() {
+            cur.attempt_open = false;
+        }
+    });
+}
+
+fn on_batch(sh: &ShRef, arg: Chan) -> ProcFut {
+    let (batch_no, _attempt) = attempt_start(sh, &arg);
+    let (outcome, polls_left, latency) = draw_outcome(sh, &arg);
+    let deadline = w(sh, |w| {
+        let d = w.now + latency;
+        if latency > Duration::ZERO {
+            w.deadlines.insert(d);
+        }
         d
     });
     if outcome == ProcOutcome::PanicSync {
-        w(sh, |w| {
-            let seq = w.next_seq();
-            w.events.push(Ev::AttemptEnd { seq, batch_no });
-            w.log(format!("processor: attempt on batch #{batch_no} panics synchronously"));
-            if let Some(cur) = w.cur.as_mut() {
-                cur.attempt_open = false;
-            }
-        });
+        attempt_end(sh, batch_no, &outcome);
         panic::panic_any(Injected("processor_sync"));
     }
-    let _ = attempt;
     ProcFut {
         sh: sh.clone(),
         polls_left,
@@ -1152,6 +1195,45 @@ fn on_wait(sh: &ShRef, d: Duration) -> WaitFut {
     WaitFut { sh: sh.clone(), deadline }
 }
 
+
+fn new_world(cap: usize, focus: u8, fault_budget: u32, retry_storm: bool) -> World {
+    World {
+                now: Duration::ZERO,
+                deadlines: BTreeSet::new(),
+                seq: 0,
+                trace: Vec::new(),
+                events: Vec::new(),
+                out: Outcome::default(),
+                cap,
+                pending: Vec::new(),
+                open: true,
+                in_batch: false,
+                truncations: 0,
+                on_take: Vec::new(),
+                on_flush: Vec::new(),
+                cur: None,
+                cur_on_flush: Vec::new(),
+                batch_no: 0,
+                first_batch_first_wait: None,
+                cbs: BTreeMap::new(),
+                next_cb: 0,
+                next_item: 0,
+                torn_down: false,
+                sender_dropped: false,
+                rx_done: false,
+                rx_sleep_until: None,
+                fault_budget,
+                rx_on_stack: false,
+                aborted: false,
+                focus,
+                retry_storm,
+                accepted_order: Vec::new(),
+                delivered_first: Vec::new(),
+                truncated_items: BTreeSet::new(),
+                ops_during_batch: 0,
+            }
+}
+
 // ---------------------------------------------------------------------------------------------
 // The run
 
@@ -1211,46 +1293,11 @@ impl Engine for ChanInline {
 
         let (sender, receiver): (Sender<Chan>, Receiver<Chan>) = emit_batcher::bounded(cap);
         let sh: ShRef = Arc::new(Sh {
-            world: Mutex::new(World {
-                now: Duration::ZERO,
-                deadlines: BTreeSet::new(),
-                seq: 0,
-                trace: Vec::new(),
-                events: Vec::new(),
-                out: Outcome::default(),
-                cap,
-                pending: Vec::new(),
-                open: true,
-                in_batch: false,
-                truncations: 0,
-                on_take: Vec::new(),
-                on_flush: Vec::new(),
-                cur: None,
-                cur_on_flush: Vec::new(),
-                batch_no: 0,
-                first_batch_first_wait: None,
-                cbs: BTreeMap::new(),
-                next_cb: 0,
-                next_item: 0,
-                torn_down: false,
-                sender_dropped: false,
-                rx_done: false,
-                rx_sleep_until: None,
-                fault_budget,
-                in_sender_op: 0,
-                rx_on_stack: false,
-                cs_item: None,
-                cs_watch: None,
-                cs_result: None,
-                aborted: false,
-                focus,
-                retry_storm,
-                accepted_order: Vec::new(),
-                delivered_first: Vec::new(),
-                truncated_items: BTreeSet::new(),
-                ops_during_batch: 0,
-            }),
+            world: Mutex::new(new_world(cap, focus, fault_budget, retry_storm)),
             choices: Mutex::new(std::mem::replace(ch, Choices::from_record(&[]))),
+            ext_choose: None,
+            inline: true,
+            yielder: None,
             sender: Mutex::new(Some(Arc::new(sender))),
             actors: Mutex::new(actors),
         });
@@ -1651,3 +1698,6 @@ fn posthoc_checks(w: &mut World) {
         }
     }
 }
+
+#[path = "chan_threads.rs"]
+pub mod threads;
